@@ -1,0 +1,90 @@
+// +build verif
+
+package apihttp
+
+// Contracts for the verifier in /verif (comment-only; see /verif/DESIGN.md).
+// C11: whatever the request holds, a handler returns without panicking. The only
+// assumptions are what net/http guarantees (non-nil writer, request, URL) and
+// that the API was wired to a node (api is not nil).
+
+/*@
+// the node behind the API: every call may do anything to the node, answers are
+// either an error or a usable result
+func ClientApi.Add
+  modifies everything
+  ensures isnil(result_1) ==> result_0 != nil
+func ClientApi.AddBulk
+  modifies everything
+func ClientApi.QueryDigestMembershipConsistency
+  modifies everything
+  ensures isnil(result_1) ==> result_0 != nil && result_0.HyperProof != nil
+func ClientApi.QueryMembershipConsistency
+  modifies everything
+  ensures isnil(result_1) ==> result_0 != nil && result_0.HyperProof != nil
+func ClientApi.QueryDigestMembership
+  modifies everything
+  ensures isnil(result_1) ==> result_0 != nil && result_0.HyperProof != nil
+func ClientApi.QueryMembership
+  modifies everything
+  ensures isnil(result_1) ==> result_0 != nil && result_0.HyperProof != nil
+func ClientApi.QueryConsistency
+  modifies everything
+  ensures isnil(result_1) ==> result_0 != nil
+// the cluster view is assembled by the node itself: it lists no nil node
+func ClientApi.ClusterInfo
+  ensures result != nil
+  ensures forall k string :: has(result.Nodes, k) ==> result.Nodes[k] != nil
+func ClientApi.Info
+  ensures result != nil
+func ClientApi.IsLeader
+
+func PostReqSanitizer
+  props C11
+  requires !isnil(w) && r != nil
+  ensures isnil(result_2) ==> result_0 == w && result_1 == r && !isnil(r.Body)
+  ensures !isnil(result_0) && result_1 != nil
+
+func GetReqSanitizer
+  props C11
+  requires !isnil(w) && r != nil
+  ensures !isnil(result_0) && result_1 != nil
+
+func getShards
+  props C11
+  requires !isnil(api)
+  modifies everything
+  ensures isnil(result_1) ==> result_0 != nil
+
+func Add.$1
+  props C11
+  requires !isnil(api) && !isnil(w) && r != nil
+  modifies everything
+func AddBulk.$1
+  props C11
+  requires !isnil(api) && !isnil(w) && r != nil
+  modifies everything
+func Membership.$1
+  props C11
+  requires !isnil(api) && !isnil(w) && r != nil
+  modifies everything
+func DigestMembership.$1
+  props C11
+  requires !isnil(api) && !isnil(w) && r != nil
+  modifies everything
+func Incremental.$1
+  props C11
+  requires !isnil(api) && !isnil(w) && r != nil
+  modifies everything
+func InfoShardsHandler.$1
+  props C11
+  requires !isnil(api) && !isnil(w) && r != nil
+  modifies everything
+func InfoHandler.$1
+  props C11
+  requires !isnil(api) && !isnil(w) && r != nil
+  modifies everything
+func HealthCheckHandler.$1
+  props C11
+  requires !isnil(w) && r != nil
+  modifies everything
+@*/
